@@ -188,7 +188,15 @@ MCRT_WRAPS = ["pthread_create", "pthread_join", "pthread_detach", "pthread_exit"
               "malloc", "calloc", "realloc", "free", "memcpy", "memset", "memmove"]
 
 
-def build_mc_exe(name, sources, atomic="c11", rwlock="posix", extra_plain=(), extra_wraps=(), exclude=(), cflags=()):
+IPC_WRAPS = ["sem_open", "sem_close", "sem_unlink", "sem_wait", "sem_trywait", "sem_post", "sem_getvalue",
+             "shm_open", "shm_unlink", "ftruncate", "fstat", "mmap", "munmap", "close"]
+IPC_SOURCES = ["engine/mcrt_ipc.c", "engine/ipcnames.c"]
+
+
+def build_mc_exe(name, sources, atomic="c11", rwlock="posix", extra_plain=(), extra_wraps=(), exclude=(), cflags=(), ipc=False):
+    if ipc:
+        extra_plain = list(extra_plain) + IPC_SOURCES
+        extra_wraps = list(extra_wraps) + IPC_WRAPS
     """harness linked with the instrumented library and the mcrt runtime (controlled scheduler + HB monitor)"""
     wraps = MCRT_WRAPS + list(extra_wraps)
     ld = ["-no-pie", "-Wl," + ",".join("--wrap=" + w for w in wraps)]
@@ -211,7 +219,7 @@ def build_exe(name, variant, sources, objs=(), cflags=(), ldflags=(), atomic="c1
         o = os.path.join(od, os.path.basename(s).rsplit(".", 1)[0] + ".o")
         hobjs.append(o)
         jobs.append((cc, s, o, flags, True))
-    pflags = ["-O1", "-g", "-fno-pie", "-w"] + config()["defines"] + ["-I" + i for i in config()["incs"]] + ["-I" + ENGINE]
+    pflags = ["-O1", "-g", "-fno-pie", "-w", "-DMCRT_IPC"] + config()["defines"] + ["-I" + i for i in config()["incs"]] + ["-I" + ENGINE]
     for s in plain_sources:
         if not os.path.isabs(s):
             s = os.path.join(VERIF, s)
